@@ -8,6 +8,7 @@ import (
 	"os/exec"
 	"path/filepath"
 	"regexp"
+	"runtime/pprof"
 	"sort"
 	"strconv"
 	"strings"
@@ -178,6 +179,21 @@ func (w *workerProc) run(id int) (*TaskResult, error) {
 	}
 }
 
+// quit asks the worker to exit and waits for it (killing it after 3 s).
+func (w *workerProc) quit() {
+	w.in.WriteString("quit\n")
+	w.in.Flush()
+	done := make(chan struct{})
+	go func() { w.cmd.Wait(); close(done) }()
+	select {
+	case <-done:
+	case <-time.After(3 * time.Second):
+		w.cmd.Process.Kill()
+		<-done
+	}
+	os.Remove(w.ann)
+}
+
 func (w *workerProc) kill() {
 	if w.cmd.Process != nil {
 		w.cmd.Process.Kill()
@@ -308,9 +324,7 @@ func coordinate(c *Check, tier string) int {
 			var w *workerProc
 			defer func() {
 				if w != nil {
-					w.in.WriteString("quit\n")
-					w.in.Flush()
-					w.kill()
+					w.quit()
 				}
 			}()
 			for {
@@ -327,6 +341,9 @@ func coordinate(c *Check, tier string) int {
 				id := order[next]
 				next++
 				mu.Unlock()
+				if f := os.Getenv("VERIF_TASK_FILTER"); f != "" && !strings.Contains(tasks[id].Name, f) {
+					continue
+				}
 				if w == nil {
 					var err error
 					if w, err = spawnWorker(c, tier, wi, false); err != nil {
@@ -337,7 +354,11 @@ func coordinate(c *Check, tier string) int {
 						return
 					}
 				}
+				t0 := time.Now()
 				r, err := w.run(id)
+				if os.Getenv("VERIF_VERBOSE") != "" {
+					fmt.Fprintf(os.Stderr, "task %d %s: %.2fs\n", id, tasks[id].Name, time.Since(t0).Seconds())
+				}
 				if err != nil {
 					// the worker died: attribute by re-running the task alone with announcements
 					w.kill()
@@ -444,9 +465,7 @@ func rerunDead(c *Check, tier string, wi, id int, name string) *TaskResult {
 		}
 		r, err := w.run(id)
 		if err == nil {
-			w.in.WriteString("quit\n")
-			w.in.Flush()
-			w.kill()
+			w.quit()
 			good = r
 			break
 		}
@@ -493,6 +512,11 @@ func announce(f func() string) {
 }
 
 func workerMain(c *Check, tier string) {
+	if pf := os.Getenv("VERIF_CPUPROFILE"); pf != "" {
+		f, _ := os.Create(pf + "." + os.Getenv("VERIF_WORKER_ID"))
+		pprof.StartCPUProfile(f)
+		defer pprof.StopCPUProfile()
+	}
 	tasks := c.Tasks(tier)
 	in := bufio.NewReader(os.Stdin)
 	out := bufio.NewWriterSize(os.Stdout, 1<<20)
